@@ -82,7 +82,17 @@ class StructuredCodeGenerator:
                         gen=repr(type(self)),
                         inst=type(inst).__name__))
 
-        return method(inst)
+        # Statements in the AST usually have their condition moved into an
+        # enclosing IfThenElse node, but transformations (e.g.
+        # expand_IfThenElse) create statements that carry their own.
+        condition = getattr(inst, "condition", True)
+        if condition is True:
+            return method(inst)
+
+        self.emit_if_begin(condition)
+        result = method(inst)
+        self.emit_if_end()
+        return result
 
     # Emit routines (to be implemented by subclass, in addition to emit_inst_)
 
